@@ -113,9 +113,18 @@ def _gen_pix(rng, tier: str, chunk_hint=None) -> dict:
 def _gen_dnd(rng) -> dict:
     n_axes = 4  # Horace histograms are always 4-d (labels, scales, ranges have 4 entries)
     while True:
-        nb = [rng.choice([1, 1, 2, 3, 5, 10, 50]) for _ in range(n_axes)]
+        nb = [rng.choice([1, 1, 2, 3, 4, 5, 8, 10, 16, 32, 50, 64]) for _ in range(n_axes)]
         if math.prod(nb) <= 20000:
             break
+    if rng.random() < 0.12:
+        # element counts on buffer-size boundaries (k * 2**m): split the exponent over the axes
+        m = rng.choice([10, 11, 12, 13, 13, 13, 14])
+        e = [0, 0, 0, 0]
+        for _ in range(m):
+            e[rng.randrange(4)] += 1
+        nb = [2 ** x for x in e]
+        if rng.random() < 0.3 and math.prod(nb) * 3 <= 50000:
+            nb[rng.randrange(4)] *= 3
     qs = lambda: [_gfloat(rng), rng.choice(Q_UNITS)]  # noqa: E731
     es = lambda: [_gfloat(rng), rng.choice(E_UNITS)]  # noqa: E731
     rngs = [[[_gfloat(rng), _gfloat(rng)], rng.choice(Q_UNITS)] for _ in range(3)] + [
